@@ -187,7 +187,7 @@ structure LangCfg where
 def lookup (m : List (Str × Nat)) (k : Str) : Option Nat :=
   match m with
   | [] => none
-  | (a, v) :: r => if a = k then some v else lookup r k
+  | (a, v) :: r => if a == k then some v else lookup r k
 
 def hasKey (m : List (Str × Nat)) (k : Str) : Bool := (lookup m k).isSome
 
